@@ -2,6 +2,7 @@ package c17
 
 import (
 	"context"
+	"database/sql"
 	"fmt"
 	"sort"
 	"strings"
@@ -31,6 +32,17 @@ type FCase struct {
 	// drop-all (desired → ∅), hand:<name> (a hand-built change list over the desired model).
 	Shape  string `json:"shape"`
 	Indent string `json:"indent,omitempty"`
+	// Flavour (dialect mysql only): "" = the unconnected mysql.DefaultDiff / DefaultPlan; mysql8 | mariadb |
+	// tidb = the driver mysql.Open returns on a connection that reports that server flavour (fakedb.go).
+	Flavour string `json:"flavour,omitempty"`
+}
+
+// label names the code path in counters and finding keys.
+func (cs FCase) label() string {
+	if cs.Flavour != "" {
+		return cs.Dialect + "/" + cs.Flavour
+	}
+	return cs.Dialect
 }
 
 type dialectT struct {
@@ -446,6 +458,22 @@ func planFor(cs FCase) (p *migrate.Plan, ood string, err error) {
 	d, ok := dialects[cs.Dialect]
 	if !ok {
 		return nil, "", fmt.Errorf("unknown dialect %q", cs.Dialect)
+	}
+	if cs.Flavour != "" {
+		version, ok := mysqlFlavours[cs.Flavour]
+		if !ok || cs.Dialect != "mysql" {
+			return nil, "", fmt.Errorf("unknown flavour %s/%s", cs.Dialect, cs.Flavour)
+		}
+		db, err := sql.Open(fakeMySQLDriver, version)
+		if err != nil {
+			return nil, "", err
+		}
+		defer db.Close()
+		drv, err := mysql.Open(db)
+		if err != nil {
+			return nil, "", err
+		}
+		d = dialectT{diff: drv, plan: drv}
 	}
 	base := poolModel(cs.Dialect, cs.Base)
 	if base == nil {
@@ -1097,10 +1125,47 @@ func judgePlan(c *rt.Ctx, label string, p *migrate.Plan, cas any, withDown bool)
 	if !withDown {
 		return
 	}
+	judgeDown(c, p, cas, "")
+	// the same plan extended the way user code (plan hooks, third-party drivers) extends plans: changes
+	// WITHOUT a comment, with a comment made of odd characters, with a multi-statement reverse, inserted
+	// at the front, in the middle and at the end; and the comment removed from every second planned
+	// change. The down parts must still hold exactly the reverse statements in reverse order. (thorough:
+	// every second plan, chosen by the plan text)
+	if c.Quick() || rt.Digest(planText(p))[0]%2 == 0 {
+		judgeDown(c, extendPlan(p), cas, "user-extended-plan|")
+	}
+}
+
+// extendPlan returns a copy of the plan with user-made changes added and comments removed.
+func extendPlan(p *migrate.Plan) *migrate.Plan {
+	q := *p
+	q.Changes = nil
+	front := &migrate.Change{Cmd: "CREATE VIEW c17_front AS SELECT 1", Reverse: "DROP VIEW c17_front"}
+	middle := &migrate.Change{Cmd: "CREATE VIEW c17_mid AS SELECT 2", Reverse: []string{"DROP VIEW c17_mid", "SELECT 'c17 mid dropped'"}}
+	odd := &migrate.Change{Cmd: "CREATE VIEW c17_odd AS SELECT 3", Reverse: "DROP VIEW c17_odd", Comment: "user hook: view \"c17_odd\" 100% {{ .X }} 'q' `b` -- /* x"}
+	none := &migrate.Change{Cmd: "SELECT 'c17 no reverse'"}
+	back := &migrate.Change{Cmd: "CREATE VIEW c17_back AS SELECT 4", Reverse: "DROP VIEW c17_back"}
+	q.Changes = append(q.Changes, front)
+	for i, ch := range p.Changes {
+		cp := *ch
+		if i%2 == 1 {
+			cp.Comment = ""
+		}
+		q.Changes = append(q.Changes, &cp)
+		if i == len(p.Changes)/2 {
+			q.Changes = append(q.Changes, middle, odd, none)
+		}
+	}
+	q.Changes = append(q.Changes, back)
+	return &q
+}
+
+// judgeDown applies the down-file oracle with every formatter.
+func judgeDown(c *rt.Ctx, p *migrate.Plan, cas any, keyPrefix string) {
 	for _, fn := range formatterNames {
 		var r downResult
 		if pk, val, st := rt.Try(func() { r = checkDown(p, fn) }); pk {
-			c.Violation("down-file|"+fn+"|panic", fmt.Sprintf("formatter panicked: %v", val), cas, map[string]any{"stack": st})
+			c.Violation("down-file|"+keyPrefix+fn+"|panic", fmt.Sprintf("formatter panicked: %v", val), cas, map[string]any{"stack": st})
 			continue
 		}
 		if r.OOD != "" {
@@ -1109,12 +1174,12 @@ func judgePlan(c *rt.Ctx, label string, p *migrate.Plan, cas any, withDown bool)
 		}
 		nontrivial := len(r.Want) > 0
 		c.Eval(rt.Digest("down", fn, r.Down), nontrivial)
-		c.Count("down-file-evaluations:"+fn, 1)
+		c.Count("down-file-evaluations:"+keyPrefix+fn, 1)
 		if len(r.Want) > 1 {
 			c.Count("down-files-with-several-statements:"+fn, 1)
 		}
 		if r.Class != "" {
-			c.Violation("down-file|"+fn+"|"+r.Class, r.Why, cas, map[string]any{"formatter": fn, "down_section": r.Down, "want": r.Want, "got": r.Got, "plan": planText(p)})
+			c.Violation("down-file|"+keyPrefix+fn+"|"+r.Class, r.Why, cas, map[string]any{"formatter": fn, "down_section": r.Down, "want": r.Want, "got": r.Got, "plan": planText(p)})
 		}
 	}
 }
@@ -1139,19 +1204,19 @@ func evalFlagCase(c *rt.Ctx, w *rt.W, cs FCase) {
 		c.OOD(ood)
 		return
 	}
-	c.Count("plans:"+cs.Dialect+":"+shapeClass(cs.Shape), 1)
+	c.Count("plans:"+cs.label()+":"+shapeClass(cs.Shape), 1)
 	if cl, irr := expectIrreversible(cs.Shape); irr {
 		// per clause reference: the hand-built ALTER TABLE holds a clause the planner cannot undo
-		c.Count("multi-clause-lists-with-an-irreversible-clause:"+cs.Dialect, 1)
+		c.Count("multi-clause-lists-with-an-irreversible-clause:"+cs.label(), 1)
 		if p.Reversible {
-			c.Violation("flag|"+cs.Dialect+"|irreversible-clause-reported-reversible|"+cl,
+			c.Violation("flag|"+cs.label()+"|irreversible-clause-reported-reversible|"+cl,
 				"a ModifyTable holding the irreversible clause "+cl+" ("+strings.TrimPrefix(cs.Shape, "hand:pair:")+") is reported reversible", cs,
 				map[string]any{"plan": planText(p)})
 		}
 	} else if strings.HasPrefix(cs.Shape, "hand:pair:") {
-		c.Count("multi-clause-lists-fully-reversible:"+cs.Dialect, 1)
+		c.Count("multi-clause-lists-fully-reversible:"+cs.label(), 1)
 		if !p.Reversible {
-			c.Violation("flag|"+cs.Dialect+"|reversible-clauses-reported-irreversible|"+strings.TrimPrefix(cs.Shape, "hand:pair:"),
+			c.Violation("flag|"+cs.label()+"|reversible-clauses-reported-irreversible|"+strings.TrimPrefix(cs.Shape, "hand:pair:"),
 				"a ModifyTable of reversible clauses only is reported irreversible", cs, map[string]any{"plan": planText(p)})
 		}
 	}
@@ -1163,7 +1228,7 @@ func evalFlagCase(c *rt.Ctx, w *rt.W, cs FCase) {
 				map[string]any{"plan": planText(p)})
 		}
 	}
-	judgePlan(c, cs.Dialect, p, cs, true)
+	judgePlan(c, cs.label(), p, cs, true)
 	if c.WantSample() && p.Reversible && len(p.Changes) >= 3 && cs.Dialect != "sqlite" {
 		rl, _ := reverseList(p)
 		c.Sample(map[string]any{"part": "flag/down", "case": cs, "plan": planText(p), "reported_reversible": p.Reversible, "reference_down_statements": rl, "verdict": "flag and all five down files agree with the reference"})
